@@ -42,7 +42,94 @@ def transform_configs(thorough):
         out.append(dict(cls="Positive", tf=tf, lo=0.0, hi=inf))
         for hi in (0.0, 2.0, -0.5, 1e6, [0.0, -0.5, 2.0]):
             out.append(dict(cls="LessThan", tf=tf, lo=-inf, hi=hi))
-    return out
+    # how the constraint object came to have these bounds (Constraint.tla: LoadState / AssignBound / Convert / Copy): the contract
+    # is the same whatever the route; "wide" / "narrow" = the object was constructed with a wider / narrower interval, both bounds different
+    routes = []
+    for c in out:
+        vias = ["double", "f32", "deepcopy"]
+        if c["cls"] != "Positive":
+            vias += ["%s_%s" % (r, w) for r in ("load", "modload", "assign", "inplace", "copyload") for w in ("wide", "narrow")]
+        routes += [dict(c, via=v) for v in vias]
+    return out + routes
+
+
+def other_bounds(torch, cfg, which):
+    """Bounds of another width (both finite bounds different) of the same class, or None when not representable."""
+    t64 = dict(dtype=torch.float64)
+    lo, hi = torch.as_tensor(cfg["lo"], **t64), torch.as_tensor(cfg["hi"], **t64)
+    sgn = -1.0 if which == "wide" else 1.0
+    if cfg["cls"] == "Interval":
+        w = hi - lo
+        lo2, hi2 = (lo - 0.3 * w, hi + 0.9 * w) if which == "wide" else (lo + 0.1 * w, hi - 0.4 * w)
+    elif cfg["cls"] == "LessThan":
+        lo2, hi2 = lo, hi - sgn * (1.5 + hi.abs() / 2)
+    else:
+        lo2, hi2 = lo + sgn * (1.5 + lo.abs() / 2), hi
+    fin = lambda a, b: bool((torch.isfinite(a) == torch.isfinite(b)).all())
+    if not (fin(lo, lo2) and fin(hi, hi2) and bool((lo2 < hi2).all())):
+        return None
+    if bool(((lo2 == lo) & torch.isfinite(lo)).any()) or bool(((hi2 == hi) & torch.isfinite(hi)).any()):
+        return None
+    return lo2, hi2
+
+
+def _construct(torch, gp, cfg, lo, hi):
+    C = gp.constraints
+    kw = dict(transform=torch.exp, inv_transform=torch.log) if cfg["tf"] == "exp" else {}
+    if cfg["cls"] == "Interval":
+        return C.Interval(lo.clone(), hi.clone())
+    if cfg["cls"] == "LessThan":
+        return C.LessThan(hi.clone(), **kw)
+    if cfg["cls"] == "Positive":
+        return C.Positive(**kw)
+    return C.GreaterThan(lo.clone(), **kw)
+
+
+def build_via(torch, gp, cfg):
+    """(constraint, lower, upper) with the bounds of cfg reached by the route cfg['via']; None when the route does not apply."""
+    import copy
+    t64 = dict(dtype=torch.float64)
+    lo, hi = torch.as_tensor(cfg["lo"], **t64), torch.as_tensor(cfg["hi"], **t64)
+    via = cfg["via"]
+    if via == "double":
+        return build_constraint(torch, gp, cfg).double(), lo, hi
+    if via == "deepcopy":
+        return copy.deepcopy(build_constraint(torch, gp, cfg)), lo, hi
+    if via == "f32":
+        lo2, hi2 = lo.float().double(), hi.float().double()
+        if not (bool((torch.isfinite(lo2) == torch.isfinite(lo)).all()) and bool((torch.isfinite(hi2) == torch.isfinite(hi)).all())
+                and bool((hi2 - lo2 > 1e-3 * torch.maximum(lo2.abs(), hi2.abs()).clamp(max=1e300)).all())):
+            return None
+        return build_constraint(torch, gp, cfg).float().double(), lo2, hi2
+    route, which = via.split("_")
+    ob = other_bounds(torch, cfg, which)
+    if ob is None:
+        return None
+    con = _construct(torch, gp, cfg, *ob)
+    if route == "assign":
+        if torch.isfinite(lo).all():
+            con.lower_bound = lo.clone()
+        if torch.isfinite(hi).all():
+            con.upper_bound = hi.clone()
+    elif route == "inplace":
+        con.lower_bound.copy_(lo)
+        con.upper_bound.copy_(hi)
+    elif route in ("load", "copyload"):
+        if route == "copyload":
+            con = copy.deepcopy(con).double()
+        con.load_state_dict(_construct(torch, gp, cfg, lo, hi).state_dict())
+    elif route == "modload":
+        def holder(c):
+            m = gp.Module()
+            m.register_parameter("raw_p", torch.nn.Parameter(torch.zeros(lo.shape if lo.dim() else hi.shape, **t64)))
+            m.register_constraint("raw_p", c)
+            return m
+        dst = holder(con)
+        dst.load_state_dict(holder(_construct(torch, gp, cfg, lo, hi)).state_dict())
+        con = dst.raw_p_constraint
+    else:
+        raise core.Machinery("unknown route %r" % via)
+    return con, lo, hi
 
 
 def build_constraint(torch, gp, cfg):
@@ -61,17 +148,30 @@ def build_constraint(torch, gp, cfg):
 def _transform_worker(cfg):
     torch, gp = _env()
     t64 = dict(dtype=torch.float64)
-    con = build_constraint(torch, gp, cfg)
-    lo = torch.as_tensor(cfg["lo"], **t64)
-    hi = torch.as_tensor(cfg["hi"], **t64)
+    via = cfg.get("via")
+    if via:
+        ok_, built = core.guarded(lambda: build_via(torch, gp, cfg))
+        if ok_ and built is None:
+            return []
+        name = "%s-%s[%s,%s] via %s" % (cfg["cls"], cfg["tf"], cfg["lo"], cfg["hi"], via)
+        if not ok_:
+            return [dict(key=["transform", name, "Route"], ok=False, nontrivial=True, sig="C17/transform/%s-%s/%s/Route" % (cfg["cls"], cfg["tf"], via.split("_")[0]),
+                         detail="%s: bringing the constraint to these bounds raised %s" % (name, built), case=dict(kind="transform", cfg=cfg), n=1)]
+        con, lo, hi = built
+        sigmid = "%s-%s/%s" % (cfg["cls"], cfg["tf"], via.split("_")[0])
+    else:
+        con = build_constraint(torch, gp, cfg)
+        lo = torch.as_tensor(cfg["lo"], **t64)
+        hi = torch.as_tensor(cfg["hi"], **t64)
+        name = "%s-%s[%s,%s]" % (cfg["cls"], cfg["tf"], cfg["lo"], cfg["hi"])
+        sigmid = "%s-%s" % (cfg["cls"], cfg["tf"])
     vec = lo.dim() > 0 or hi.dim() > 0
-    name = "%s-%s[%s,%s]" % (cfg["cls"], cfg["tf"], cfg["lo"], cfg["hi"])
     out = []
 
     def res(clause, ok, detail="", nontrivial=True):
-        out.append(dict(key=["transform", name, clause], ok=ok, nontrivial=nontrivial, sig="C17/transform/%s-%s/%s" % (cfg["cls"], cfg["tf"], clause),
+        out.append(dict(key=["transform", name, clause], ok=ok, nontrivial=nontrivial, sig="C17/transform/%s/%s" % (sigmid, clause),
                         detail="%s: %s" % (name, detail), case=dict(kind="transform", cfg=cfg), n=1,
-                        sample=dict(constraint=name, clause=clause) if clause == "Monotone" and cfg["lo"] == 0.1 else None))
+                        sample=dict(constraint=name, clause=clause) if clause == "Monotone" and cfg["lo"] == 0.1 and cfg.get("via") in (None, "modload_wide") else None))
 
     if not (bool((con.lower_bound.to(**t64) == lo).all()) and bool((con.upper_bound.to(**t64) == hi).all())):
         res("Bounds", False, "constraint reports bounds [%s, %s]" % (con.lower_bound.tolist(), con.upper_bound.tolist()))
@@ -172,7 +272,8 @@ def run_transforms(ck, thorough):
         cfgs = [dict(c, dense=True) for c in cfgs]
     results = core.pmap(_transform_worker, cfgs, chunksize=1)
     ck.absorb(results)
-    ck.section("transform_contract", constraints=len(cfgs), cells=len(results), raw_points_per_constraint=28808 + (2400 * 2 if thorough else 0))
+    ck.section("transform_contract", constraints=len(cfgs), fresh=len([c for c in cfgs if not c.get("via")]),
+               reached_by_route=len([c for c in cfgs if c.get("via")]), cells=len(results), raw_points_per_constraint=28808 + (2400 * 2 if thorough else 0))
 
 
 # ---------------------------------------------------------------------------------------------
@@ -644,6 +745,14 @@ def run_observations(ck):
     obs["Interval(-1.0, 0.3).check_raw(40.)"] = bool(iv.check_raw(torch.tensor(40.0, dtype=torch.float64)))
     ok, r = core.guarded(lambda: repr(C.GreaterThan(torch.tensor([1.0], dtype=torch.float64))))
     obs["repr(GreaterThan(tensor([1.])))"] = r
+    k2 = gp.kernels.RBFKernel(lengthscale_constraint=C.Interval(-0.74, 0.3))
+    ok, r = core.guarded(lambda: setattr(k2, "lengthscale", torch.tensor(0.29999999999999993, dtype=torch.float64)))
+    obs["Interval(-0.74, 0.3): assigning 0.3 - 1 ulp (inside; (v - lo) / (hi - lo) rounds to 1, transform(inf) = 0.3 + 1 ulp)"] = "accepted" if ok else r[:80]
+    src, dst = gp.kernels.RBFKernel(lengthscale_constraint=C.GreaterThan(0.5)), gp.kernels.RBFKernel()
+    src.lengthscale = 0.75
+    ok, r = core.guarded(lambda: dst.load_state_dict(src.state_dict()))
+    obs["Positive() after load_state_dict from GreaterThan(0.5) with lengthscale 0.75 (another constraint class: not the same architecture)"] = (
+        "lower_bound reports %r, lengthscale reads %r" % (float(dst.raw_lengthscale_constraint.lower_bound), float(dst.lengthscale)) if ok else r[:80])
     ck.extra["observations_outside_the_claim"] = obs
 
 
